@@ -18,6 +18,11 @@ fn escape_go_string(value: &str) -> String {
             '\n' => escaped.push_str("\\n"),
             '\r' => escaped.push_str("\\r"),
             '\t' => escaped.push_str("\\t"),
+            // Go rejects a NUL and a byte order mark inside source text, and the other
+            // control characters are not meant to be read there either.
+            other if other.is_control() || other == '\u{feff}' => {
+                escaped.push_str(&format!("\\u{:04x}", other as u32));
+            }
             other => escaped.push(other),
         }
     }
